@@ -1128,6 +1128,30 @@ fn run_c24(args: &Args, o: &mut out::Out) {
             inputs.insert(idx, engine::case_input_json(&c));
             cases.push(json!({"idx": idx, "query": c.query_text, "args": args_json(&c.args), "dataset": dataset_json(&c.dataset), "exp_ir": exp_ir, "exp_rows": exp_rows}));
         }
+        // process-wide state keyed by argument VALUES (e.g. a cache of compiled regexes) only shows when
+        // many executions with DIFFERENT arguments interleave: 300 small regex / not_regex runs over 6 patterns
+        {
+            let mut r2 = rng.fork();
+            let dataset = world::gen_dataset(&mut r2, 7);
+            let patterns = ["^a", "b$", "a.*b", "^$", "[A-Z]", "x y|ab"];
+            for j in 0..300usize {
+                let op = if j % 5 == 4 { "not_regex" } else { "regex" };
+                let text = format!("query {{ Thing {{ name @filter(op: \"{op}\", value: [\"$p\"]) id @output(name: \"o1\") }} }}");
+                let indexed = match trustfall_core::frontend::parse(&schema, &text) {
+                    Ok(ix) => ix,
+                    Err(_) => break,
+                };
+                let mut a: BTreeMap<Arc<str>, FieldValue> = BTreeMap::new();
+                a.insert(Arc::from("p"), FieldValue::String(Arc::from(patterns[(j * 7 + j / 6) % patterns.len()])));
+                let c = engine::EngineCase { dataset: dataset.clone(), query_text: text.clone(), indexed, args: Arc::new(a), features: Default::default(), var_hints: Default::default() };
+                let exp_ir = seq_compile(&schema, &c.query_text);
+                let exp_rows = engine::show_outcome(&engine::run_impl(&c));
+                let idx = 1_000_000 + (round * 1000 + j) as u64;
+                inputs.insert(idx, engine::case_input_json(&c));
+                cases.push(json!({"idx": idx, "query": c.query_text, "args": args_json(&c.args), "dataset": dataset_json(&c.dataset), "exp_ir": exp_ir, "exp_rows": exp_rows}));
+                o.count("family:concurrent-regex-arguments");
+            }
+        }
         let inp = work.join(format!("round{round}.json"));
         std::fs::write(&inp, json!({"schema": schema_text, "cases": cases}).to_string()).unwrap();
         let res = spawn_children(&exe, "c24child", &inp, &work, &format!("round{round}"), 1, &[threads.to_string()]);
